@@ -21,7 +21,8 @@ Definition render_ctx (v0 : bool) (c : ctx) : hookctx :=
               else (c_binding c, K_Group, c_group c, 0)
        end.
 
-Record qobs := mkQO { qo_name : N; qo_items : list task; qo_running : bool; qo_worker_stopped : bool }.
+(* qo_running: a hook execution is open; qo_delayed: the worker waits in a back-off delay *)
+Record qobs := mkQO { qo_name : N; qo_items : list task; qo_running : bool; qo_worker_stopped : bool; qo_delayed : bool }.
 Record eobs := mkEO { eo_queue : N; eo_hook : N; eo_ctxs : list hookctx }.
 Record sobs := mkSO {
   so_queues : list qobs;       (* sorted by queue number *)
@@ -52,11 +53,12 @@ Definition hook_v0 (cfg : config) (h : N) : bool :=
 
 Definition observe (cfg : config) (s : state) : sobs :=
   let qs := sort_queues (queues s) in
-  mkSO (map (fun q => mkQO (q_name q) (q_items q) (is_running q) (stopped s && negb (is_running q))) qs)
-       (flat_map (fun q => match q_running q, q_items q with
-                           | Some _, t :: _ => [mkEO (q_name q) (t_hook t)
+  mkSO (map (fun q => mkQO (q_name q) (q_items q) (in_handler q) (stopped s && negb (in_handler q))
+                            (is_running q && q_delay q && negb (stopped s))) qs)
+       (flat_map (fun q => match q_running q, q_items q, q_delay q with
+                           | Some _, t :: _, false => [mkEO (q_name q) (t_hook t)
                                                      (map (render_ctx (hook_v0 cfg (t_hook t))) (t_ctxs t))]
-                           | _, _ => []
+                           | _, _, _ => []
                            end) qs)
        (sort_dedup (unlocked s))
        [] false.
@@ -87,7 +89,8 @@ Definition hookctx_eqb (a b : hookctx) : bool :=
   match a, b with (a1, a2, a3, a4), (b1, b2, b3, b4) => N.eqb a1 b1 && N.eqb a2 b2 && N.eqb a3 b3 && N.eqb a4 b4 end.
 Definition qobs_eqb (a b : qobs) : bool :=
   N.eqb (qo_name a) (qo_name b) && list_eqb task_eqb (qo_items a) (qo_items b)
-  && Bool.eqb (qo_running a) (qo_running b) && Bool.eqb (qo_worker_stopped a) (qo_worker_stopped b).
+  && Bool.eqb (qo_running a) (qo_running b) && Bool.eqb (qo_worker_stopped a) (qo_worker_stopped b)
+  && Bool.eqb (qo_delayed a) (qo_delayed b).
 Definition eobs_eqb (a b : eobs) : bool :=
   N.eqb (eo_queue a) (eo_queue b) && N.eqb (eo_hook a) (eo_hook b) && list_eqb hookctx_eqb (eo_ctxs a) (eo_ctxs b).
 (* [so_started] is an implementation-side record only; [so_bad] must be false *)
